@@ -303,29 +303,70 @@ Qed.
 (* ------------------------------------------------------------------ *)
 (* The _State constructor, __call__, __set_name__                       *)
 
+(* whichever way the decorator is spelled, the wrapper is built by ONE call of
+   _State.__init__ with the options as the source wrote them *)
+Lemma construct_eq reserved d :
+  construct reserved d =
+  init_state reserved d (marked_first (d_deco d)) (marked_must_finish (d_deco d))
+             (marked_timed (d_deco d)) (marked_default (d_deco d)).
+Proof. unfold construct. destruct (d_deco d); reflexivity. Qed.
+
 Theorem name_reject_iff reserved d :
   construct reserved d = Err EInvalidStateName <-> In (d_fname d) reserved.
 Proof.
-  unfold construct, check_name. rewrite <- mem_In.
+  rewrite construct_eq. unfold init_state, check_name. rewrite <- mem_In.
   destruct (mem (d_fname d) reserved).
   - split; reflexivity.
   - destruct (validate_sig (d_params d)); split; discriminate.
 Qed.
 
-Definition deco_first (k : deco) : bool :=
-  match k with DState f _ | DTimed f _ => f | DDefault => false end.
-Definition deco_default (k : deco) : bool :=
-  match k with DDefault => true | _ => false end.
+Definition deco_first := marked_first.
+Definition deco_default := marked_default.
 
 Lemma construct_ok reserved d s : construct reserved d = Ok s ->
   ~ In (d_fname d) reserved /\ validate_sig (d_params d) = Ok (s_args s) /\
   s_name s = d_fname d /\ s_desc s = d_doc d /\
   s_first s = deco_first (d_deco d) /\ s_default s = deco_default (d_deco d).
 Proof.
-  unfold construct, check_name. destruct (mem (d_fname d) reserved) eqn:M; [discriminate|].
+  rewrite construct_eq. unfold init_state, check_name.
+  destruct (mem (d_fname d) reserved) eqn:M; [discriminate|].
   destruct (validate_sig (d_params d)) as [args|e]; [|discriminate].
   intros H. inversion H; subst. split; [apply mem_false; exact M|].
-  destruct (d_deco d); simpl; repeat split; reflexivity.
+  simpl; repeat split; reflexivity.
+Qed.
+
+(* every field the decorator options determine *)
+Theorem marks_kept reserved d s : construct reserved d = Ok s ->
+  s_first s = marked_first (d_deco d) /\ s_must_finish s = marked_must_finish (d_deco d) /\
+  s_default s = marked_default (d_deco d) /\ s_timed s = marked_timed (d_deco d) /\
+  s_name s = d_fname d /\ s_desc s = d_doc d.
+Proof.
+  rewrite construct_eq. unfold init_state, check_name.
+  destruct (mem (d_fname d) reserved); [discriminate|].
+  destruct (validate_sig (d_params d)) as [args|e]; [|discriminate].
+  intros H. inversion H; subst. simpl. repeat split; reflexivity.
+Qed.
+
+(* the two call paths of [state] agree: the function and the options in one
+   call give exactly what the decorator returned for these options gives when
+   it is applied to the function *)
+Theorem state_fn_paths_agree reserved g first mf :
+  exists dec, state_fn reserved None first mf = RDecorator dec /\
+              state_fn reserved (Some g) first mf = RWrapper (dec g).
+Proof. eexists. split; reflexivity. Qed.
+
+(* two decorated functions that differ only in the SPELLING of the decorator
+   (same function, same options) yield the same state or the same error *)
+Theorem spelling_irrelevant reserved d d' :
+  d_fname d = d_fname d' -> d_params d = d_params d' -> d_doc d = d_doc d' ->
+  marked_first (d_deco d) = marked_first (d_deco d') ->
+  marked_must_finish (d_deco d) = marked_must_finish (d_deco d') ->
+  marked_timed (d_deco d) = marked_timed (d_deco d') ->
+  marked_default (d_deco d) = marked_default (d_deco d') ->
+  construct reserved d = construct reserved d'.
+Proof.
+  intros E1 E2 E3 E4 E5 E6 E7. rewrite !construct_eq. unfold init_state.
+  rewrite E1, E2, E3, E4, E5, E6, E7. reflexivity.
 Qed.
 
 Theorem construct_ok_iff reserved d :
@@ -335,7 +376,7 @@ Proof.
   split.
   - intros [s H]. destruct (construct_ok reserved d s H) as [N [S _]]. split; [exact N|].
     rewrite <- sig_reject_iff. intros [e E]. congruence.
-  - intros [N S]. apply sig_ok_iff in S. unfold construct, check_name.
+  - intros [N S]. apply sig_ok_iff in S. rewrite construct_eq. unfold init_state, check_name.
     apply mem_false in N. rewrite N, S. eexists. reflexivity.
 Qed.
 
@@ -910,7 +951,7 @@ Proof.
   destruct (eval_member reserved dicts ns0 m1) as [v1|e1] eqn:E1.
   - exact (IH _ _ H).
   - inversion H; subst e1. destruct m1 as [d| |k2|c k2]; cbn [eval_member] in E1.
-    + unfold construct, check_name in E1. destruct (mem (d_fname d) reserved).
+    + rewrite construct_eq in E1. unfold init_state, check_name in E1. destruct (mem (d_fname d) reserved).
       * inversion E1; split; discriminate.
       * destruct (validate_sig (d_params d)); inversion E1; split; discriminate.
     + discriminate.
@@ -1100,6 +1141,115 @@ Proof.
   intros C Np H. apply (alias_owner_rejected reserved dicts osm _ k s); [|exact H].
   unfold binds_state. rewrite (denotes_last reserved dicts pre k (SRef c k0) post Np).
   cbn [denotes]. rewrite String.eqb_refl. exact C.
+Qed.
+
+(* ---- the marks of the source reach the multiplicity check ------------ *)
+
+Lemma lookup_last_dict_get {V} (d : dict V) k : NoDup (keys d) -> lookup_last k d = dict_get k d.
+Proof.
+  unfold keys. induction d as [|[k1 v1] r IH]; cbn [lookup_last dict_get map fst]; intros N; [reflexivity|].
+  inversion N as [|? ? Hn Hr]; subst. rewrite (IH Hr).
+  destruct (String.eqb_spec k1 k) as [E|E].
+  - subst. destruct (dict_get k r) as [v|] eqn:G; [|reflexivity].
+    exfalso. apply Hn. apply dict_get_In in G. apply in_map_iff. exists (k, v). split; [reflexivity | exact G].
+  - destruct (dict_get k r); reflexivity.
+Qed.
+
+Lemma lookup_last_app {V} k (a b : list (string * V)) :
+  lookup_last k (a ++ b) = match lookup_last k b with Some v => Some v | None => lookup_last k a end.
+Proof.
+  induction a as [|[k1 v1] r IH]; cbn [app lookup_last].
+  - destruct (lookup_last k b); reflexivity.
+  - rewrite IH. destruct (lookup_last k b); reflexivity.
+Qed.
+
+Lemma lookup_last_others k (extra : list string) :
+  ~ In k extra -> lookup_last k (map (fun x => (x, MOther)) extra) = None.
+Proof.
+  induction extra as [|x r IH]; intros N; cbn [map lookup_last]; [reflexivity|].
+  rewrite IH by (intros I; apply N; right; exact I).
+  destruct (String.eqb_spec x k) as [E|E]; [|reflexivity]. exfalso. apply N. left. exact E.
+Qed.
+
+(*   @<decorator> def k(..)   (not rebound below)  in an accepted class body:
+   the class namespace holds under k exactly the state the decorator expression
+   gives for this function *)
+Theorem decorated_state_bound reserved dicts osm pre k d post ns :
+  define_class reserved dicts osm (pre ++ (k, SState d) :: post) = Ok ns -> ~ In k (keys post) ->
+  NoDup (keys ns) /\
+  exists s, dict_get k ns = Some (MState s) /\ construct reserved d = Ok s /\ k = d_fname d /\ osm = true.
+Proof.
+  intros D Np. unfold define_class in D.
+  destruct (eval_body reserved dicts (pre ++ (k, SState d) :: post) []) as [ns'|e] eqn:E; [|discriminate].
+  destruct (set_names osm ns') as [[]|e] eqn:S; [|discriminate]. inversion D; subst ns'.
+  destruct (eval_body_ok reserved dicts _ [] [] ns (ns_denotes_nil _ _) E) as (G & B & N).
+  cbn [app] in G. split; [apply N; constructor|].
+  specialize (B pre k (SState d) post eq_refl). cbn [entry_ok app] in B.
+  apply construct_ok_iff in B. destruct B as [s K]. exists s.
+  assert (L : dict_get k ns = Some (MState s)).
+  { rewrite (G k), (denotes_last reserved dicts pre k (SState d) post Np).
+    cbn [denotes]. rewrite String.eqb_refl, K. reflexivity. }
+  split; [exact L|]. split; [exact K|].
+  rewrite set_names_ok_iff in S. destruct (S k s (dict_get_In _ _ _ L)) as [E1 E2].
+  destruct (construct_ok reserved d s K) as (_ & _ & Nn & _). split; congruence.
+Qed.
+
+(* .. and therefore, for every class whose most derived class this is (any
+   bases [rest]; [extra] are the non-state keys setattr adds to the __dict__):
+   the state counts as first / as default state at instantiation iff the source
+   marks it so -- whichever spelling of the decorator carries the mark *)
+Theorem first_is_marked reserved dicts osm pre k d post ns extra rest :
+  define_class reserved dicts osm (pre ++ (k, SState d) :: post) = Ok ns ->
+  ~ In k (keys post) -> ~ In k extra ->
+  (first_in ((ns ++ map (fun x => (x, MOther)) extra) :: rest) k <-> marked_first (d_deco d) = true) /\
+  (default_in ((ns ++ map (fun x => (x, MOther)) extra) :: rest) k <-> marked_default (d_deco d) = true) /\
+  exists s, eff_state ((ns ++ map (fun x => (x, MOther)) extra) :: rest) k s /\
+            s_name s = k /\ s_desc s = d_doc d.
+Proof.
+  intros D Np Ne.
+  destruct (decorated_state_bound reserved dicts osm pre k d post ns D Np) as (N & s & L & K & Ek & _).
+  assert (Eff : effective ((ns ++ map (fun x => (x, MOther)) extra) :: rest) k = Some (MState s)).
+  { cbn [effective]. rewrite lookup_last_app, (lookup_last_others k extra Ne),
+      (lookup_last_dict_get ns k N), L. reflexivity. }
+  destruct (marks_kept reserved d s K) as (F1 & _ & F3 & _ & F5 & F6).
+  unfold first_in, default_in, eff_state. rewrite Eff. repeat split.
+  - intros [s' [E1 E2]]. inversion E1; subst s'. congruence.
+  - intros H. exists s. split; [reflexivity | congruence].
+  - intros [s' [E1 E2]]. inversion E1; subst s'. congruence.
+  - intros H. exists s. split; [reflexivity | congruence].
+  - exists s. split; [reflexivity|]. split; congruence.
+Qed.
+
+(* a function the most derived class marks first is found: never NoFirstStateError *)
+Corollary marked_first_found reserved dicts osm pre k d post ns extra rest :
+  define_class reserved dicts osm (pre ++ (k, SState d) :: post) = Ok ns ->
+  ~ In k (keys post) -> ~ In k extra -> marked_first (d_deco d) = true ->
+  build_states ((ns ++ map (fun x => (x, MOther)) extra) :: rest) <> Err NoFirst.
+Proof.
+  intros D Np Ne M H.
+  destruct (first_is_marked reserved dicts osm pre k d post ns extra rest D Np Ne) as (F & _).
+  exact (build_err_sound _ _ H k (proj2 F M)).
+Qed.
+
+(* two different functions the class body marks first -- each with any
+   spelling -- make the class impossible to instantiate *)
+Corollary two_marked_first_rejected reserved dicts osm body ns extra rest pre1 k1 d1 post1 pre2 k2 d2 post2 :
+  define_class reserved dicts osm body = Ok ns ->
+  body = pre1 ++ (k1, SState d1) :: post1 -> ~ In k1 (keys post1) ->
+  body = pre2 ++ (k2, SState d2) :: post2 -> ~ In k2 (keys post2) ->
+  k1 <> k2 -> ~ In k1 extra -> ~ In k2 extra ->
+  marked_first (d_deco d1) = true -> marked_first (d_deco d2) = true ->
+  exists e, build_states ((ns ++ map (fun x => (x, MOther)) extra) :: rest) = Err e /\ e <> NoFirst.
+Proof.
+  intros D B1 N1 B2 N2 Nk E1 E2 M1 M2.
+  pose proof D as D1. rewrite B1 in D1. pose proof D as D2. rewrite B2 in D2.
+  destruct (first_is_marked reserved dicts osm pre1 k1 d1 post1 ns extra rest D1 N1 E1) as (F1 & _).
+  destruct (first_is_marked reserved dicts osm pre2 k2 d2 post2 ns extra rest D2 N2 E2) as (F2 & _).
+  apply F1 in M1. apply F2 in M2.
+  destruct (build_states ((ns ++ map (fun x => (x, MOther)) extra) :: rest)) as [r|e] eqn:Bd.
+  - exfalso. destruct (build_ok_sound _ r Bd) as (_ & U & _).
+    apply Nk. rewrite (U k1 M1), (U k2 M2). reflexivity.
+  - exists e. split; [reflexivity|]. intros ->. exact (build_err_sound _ _ Bd k1 M1).
 Qed.
 
 (* ------------------------------------------------------------------ *)
